@@ -312,11 +312,15 @@ PLANS['C11'] = Plan(
 )
 
 PLANS['C10'] = Plan(
-    'C10', [AR + 'getUnalignedFragments', 'src/alignment/alignment_results.py::AlignmentResults.filterOutSubsequentAlignmentsForSingleQuery'], 'exploration',
+    'C10', [AR + 'getUnalignedFragments', 'src/alignment/alignment_results.py::AlignmentResults.filterOutSubsequentAlignmentsForSingleQuery',
+            'src/workflow_coordinator.py::_WorkflowCoordinator.execute',
+            'src/multi_pass_workflow_coordinator.py::_MultiPassWorkflowCoordinator.getSecondPassAlignmentRows#checked'], 'exploration',
     "Decided by a BOUNDED differential run-time contract on the real program: file order and id filters go through pandas, outside any contract within "
     "reach. The records of a run on the full files are compared per query with runs on subsets, permutations, row-shuffled files and -qId/-rId selections. "
     "Deductive contributions reported alongside: the only cross-query access, the lookup in getUnalignedFragments, returns the map with the row's own query id "
-    "wherever it sits in the list; the per-query filter groups by query id only.",
+    "wherever it sits in the list; the per-query filter groups by query id only; _WorkflowCoordinator.execute hands each query to the per-query procedure as "
+    "its own work item (referenceMaps, q), in order; the second pass (getSecondPassAlignmentRows, verified under the stated precondition on the first-pass "
+    "rows) searches the SAME reference list as the first pass - not a selection that depends on the other molecules - on exactly the unaligned fragments.",
     bounded=_lazy('bcheck.c10', 'bounded'), replay=_lazy('bcheck.c10', 'replay'),
     technique='bounded differential run-time contract on the real program (variants of the same input)',
 )
